@@ -587,7 +587,8 @@ def m_str_index(ex, n, a, f):
         if is_get:
             return none(ex, ret_ty(f))
         raise
-    res = StrRef(chars[i:j])
+    src = ex.deref(a[0])
+    res = src.sub(i, j) if isinstance(src, StrRef) else StrRef(chars[i:j])
     return some(ex, ret_ty(f), res) if is_get else res
 
 
@@ -609,6 +610,9 @@ def m_is_char_boundary(ex, n, a, f):
 def m_str_split_at(ex, n, a, f):
     chars = as_str(ex, a[0])
     i = char_index_of_byte(ex, chars, a[1], 'split_at')
+    src = ex.deref(a[0])
+    if isinstance(src, StrRef):
+        return Tup([src.sub(0, i), src.sub(i, len(chars))])
     return Tup([StrRef(chars[:i]), StrRef(chars[i:])])
 
 
@@ -784,3 +788,62 @@ def m_chars_other(ex, n, a, f):
         if pat.search(fake):
             return fn(ex, fake, a, f)
     raise Unsupported(f"iterator method {name} on str iterator")
+
+
+@model(r'^<(&)?str as nom::Offset>::offset$', r'^<(&)?str as nom::traits::Offset>::offset$')
+def m_nom_offset(ex, n, a, f):
+    x = ex.deref(a[0])
+    y = ex.deref(a[1])
+    if not (isinstance(x, StrRef) and isinstance(y, StrRef)):
+        raise Unsupported("nom Offset on non-&str")
+    if x is y:
+        return 0
+    if x.base is None or x.base is not y.base:
+        if not x.chars and not y.chars:
+            return 0
+        raise Unsupported("nom Offset between unrelated strings")
+    return norm(y.off - x.off, 64, False)
+
+
+@model(r'^(std|core)::str::<impl str>::(match_indices|rmatch_indices)::<')
+def m_str_match_indices(ex, n, a, f):
+    chars = as_str(ex, a[0])
+    pk, _ = pattern_kind(ex, f)
+    pat = norm_pat(ex, a[1])
+    src = ex.deref(a[0])
+    cells = []
+    i = 0
+    while i < len(chars):
+        cond, ln = match_at(ex, chars, i, pat, pk)
+        if ln and ex.branch(cond, 'match_indices'):
+            sub = src.sub(i, i + ln) if isinstance(src, StrRef) else StrRef(chars[i:i + ln])
+            cells.append(Cell(Tup([byte_off(chars, i), sub])))
+            i += ln
+        else:
+            i += 1
+    return IterV(cells, by_value=True)
+
+
+@model(r'^<std::str::(MatchIndices|RMatchIndices|Matches)<.*> as std::iter::(Iterator|DoubleEndedIterator)>::(next|next_back)$')
+def m_match_indices_next(ex, n, a, f):
+    return m_chars_next(ex, n, a, f)
+
+
+@model(r'^<std::str::(MatchIndices|RMatchIndices|Matches)<.*> as std::iter::Iterator>::(count|last)$')
+def m_match_indices_count(ex, n, a, f):
+    it = ex.force(a[0])
+    if n.endswith('count'):
+        return it.end - it.pos
+    rt = ret_ty(f)
+    return some(ex, rt, it.cells[it.end - 1].v) if it.pos < it.end else none(ex, rt)
+
+
+@model(r'^<std::str::(MatchIndices|RMatchIndices|Matches)<.*> as std::clone::Clone>::clone$')
+def m_match_indices_clone(ex, n, a, f):
+    it = ex.deref(a[0])
+    c = IterV(it.cells, it.by_value)
+    c.pos, c.end = it.pos, it.end
+    return c
+
+
+models.REGISTRY.insert(0, models.REGISTRY.pop())
